@@ -293,6 +293,14 @@ func marching3(r *vlib.Run) {
 			s = csg(rng, 4, 1)
 			delta = 0.05 + 0.08*rng.Float64()
 		}
+		if dyadic == 0 && rng.Intn(2) == 0 {
+			// the same shape in other units: every clause is relative to the spacing
+			k := math.Pow(10, -9+15*rng.Float64())
+			inner := s
+			s = &fsolid{inner.min.Scale(k), inner.max.Scale(k), func(p C3) bool { return inner.Contains(p.Scale(1 / k)) }, fmt.Sprintf("scaled(%g,%s)", k, inner.desc)}
+			delta *= k
+			c.Count("mc.cases_in_other_units", 1)
+		}
 		iters := []int{0, 1, 2, 5, 8}[rng.Intn(5)]
 		if dyadic > 0 && iters > 5 {
 			iters = 5
